@@ -13,7 +13,9 @@ import (
 // snapshot bookkeeping relies on: Count, DocNumbers (the documents carrying one of the ids),
 // DocID, reference counting.
 type verifSeg struct {
-	n      int
+	n      int    // capacity: number of id slots
+	cnt    uint64 // Count(); equals n except for merged segments whose size is symbolic
+	symCnt bool
 	idOf   []byte
 	refs   int
 	closed int
@@ -25,12 +27,17 @@ func (s *verifSeg) VisitStoredFields(num uint64, visitor segment.StoredFieldValu
 	return nil
 }
 func (s *verifSeg) DocID(num uint64) ([]byte, error) {
-	if num >= uint64(s.n) {
+	if num >= s.Count() {
 		return nil, nil
 	}
 	return []byte{s.idOf[num]}, nil
 }
-func (s *verifSeg) Count() uint64 { return uint64(s.n) }
+func (s *verifSeg) Count() uint64 {
+	if s.symCnt {
+		return s.cnt
+	}
+	return uint64(s.n)
+}
 func (s *verifSeg) DocNumbers(ids []string) (*roaring.Bitmap, error) {
 	var bits uint64
 	for k := 0; k < s.n; k++ {
@@ -40,6 +47,7 @@ func (s *verifSeg) DocNumbers(ids []string) (*roaring.Bitmap, error) {
 				hit = rt.Or(hit, id[0] == s.idOf[k])
 			}
 		}
+		hit = rt.And(hit, uint64(k) < s.Count())
 		bits |= rt.IteU64(hit, uint64(1)<<uint(k), 0)
 	}
 	return rt.BitmapFromBits(bits), nil
@@ -130,15 +138,25 @@ func verifSymRoot(s *Scorch, nsegs, maxDocs, nIDs int) (*IndexSnapshot, []*verif
 
 // verifLive counts the live documents with external id x in a snapshot (read directly from the
 // snapshot's segments and deleted bitmaps).
+func verifStub(seg segment.Segment) *verifSeg {
+	switch t := seg.(type) {
+	case *verifSeg:
+		return t
+	case *verifPSeg:
+		return &t.verifSeg
+	}
+	return nil
+}
+
 func verifLive(is *IndexSnapshot, x byte) int {
 	c := 0
 	for _, ss := range is.segment {
 		del := rt.BitmapBits(ss.deleted)
-		n := int(ss.segment.Count())
-		for k := 0; k < n; k++ {
-			id, _ := ss.segment.DocID(uint64(k))
-			live := del>>uint(k)&1 == 0
-			c += rt.IteInt(rt.And(live, id[0] == x), 1, 0)
+		st := verifStub(ss.segment)
+		cnt := st.Count()
+		for k := 0; k < st.n; k++ {
+			live := rt.And(del>>uint(k)&1 == 0, uint64(k) < cnt)
+			c += rt.IteInt(rt.And(live, st.idOf[k] == x), 1, 0)
 		}
 	}
 	return c
@@ -151,7 +169,7 @@ func verifWellFormed(is *IndexSnapshot, nIDs int, what string) {
 	for i, ss := range is.segment {
 		n := ss.segment.Count()
 		del := rt.BitmapBits(ss.deleted)
-		rt.Assert(del>>uint(n) == 0, what+": deleted bits lie below the segment's document count")
+		rt.Assert(rt.Or(n >= 64, del>>(n&63) == 0), what+": deleted bits lie below the segment's document count")
 		if i < len(is.offsets) {
 			rt.Assert(is.offsets[i] == running, what+": offsets are the running sums of segment sizes")
 		}
